@@ -404,3 +404,71 @@ def t_agent_setup():
              ("m", "Agent", "set_asset_volume"): SET_VOLUME.handler(), ("m", "JsonRandom", "random"): JSON_RANDOM.handler()}
     obl, info = AGENT_SETUP.verify(specs=specs, loops=agent_setup_loops())
     return {"obligations": obl, "info": [info]}
+
+
+# ----------------------------------------------------------------------------- MarketShareFCNAgent.submit_orders: the FCN order of ONE accessible market of the list (C20)
+def fcn_wf_post(st0, st1, a, res):
+    """call-site view of FCNAgent.submit_orders_by_market (proved together with the strategy clauses in task FCNAgent.submit_orders_by_market)"""
+    ag, m = a["self"], a["market"]
+    n = st1.length(res.term); i = z3.Int("i_fwf")
+    el = st1.elems(res.term, ("ref", "Order"))
+    mid = st0.read(m, "market_id").term
+    return [("C20 at most one order, none for a market the agent cannot access", z3.And(n >= 0, n <= 1, z3.Implies(z3.Not(accessible(st0, ag, mid)), n == 0))),
+            ("C20 every emitted order is a well-formed limit order under the agent's own id for that market",
+             z3.ForAll([i], z3.Implies(z3.And(0 <= i, i < n), z3.And(O(st1, "agent_id")[z3.Select(el, i)] == st0.read(ag, "agent_id").term, O(st1, "market_id")[z3.Select(el, i)] == mid,
+                                                                       O(st1, "kind")[z3.Select(el, i)] == 1, O(st1, "volume")[z3.Select(el, i)] == 1, z3.Not(O(st1, "price", "none")[z3.Select(el, i)]),
+                                                                       O(st1, "placed_at", "none")[z3.Select(el, i)], O(st1, "order_id", "none")[z3.Select(el, i)], z3.Not(O(st1, "is_canceled")[z3.Select(el, i)])))))]
+
+
+FCN_BY_MARKET.post = fcn_wf_post
+SUM_TRADE_VOLUME = FSpec("MarketShareFCNAgent.get_sum_trade_volume", props=("C20",), result=("int",), modifies=lambda st, a: [])      # result unconstrained: only used as a weight
+
+
+def ms_pre(st, a):
+    ag, ms = a["self"], a["markets"]
+    n = st.length(ms.term); el = st.elems(ms.term, ("ref", "Market")); i = z3.Int("i_msp")
+    mk = lambda j: V(("ref", "Market"), z3.Select(el, j))
+    fp = []
+    for label, f in fcn_pre(st, {"self": ag, "market": mk(i)}):
+        fp.append(f)
+    return [("len >= 0", n >= 0), ("every listed market satisfies the FCN preconditions (admissible parameters, positive prices)", z3.ForAll([i], z3.Implies(z3.And(0 <= i, i < n), z3.And(*fp))))]
+
+
+def ms_some_accessible(st, a):
+    ag, ms = a["self"], a["markets"]
+    n = st.length(ms.term); el = st.elems(ms.term, ("ref", "Market")); i = z3.Int("i_msa")
+    return z3.Exists([i], z3.And(0 <= i, i < n, accessible(st, ag, st.read(V(("ref", "Market"), z3.Select(el, i)), "market_id").term)))
+
+
+def ms_post(st0, st1, a, res):
+    ag, ms = a["self"], a["markets"]
+    n = st0.length(ms.term); el = st0.elems(ms.term, ("ref", "Market")); i, j = z3.Ints("i_mso j_mso")
+    rn = st1.length(res.term); rel = st1.elems(res.term, ("ref", "Order"))
+    mkid = lambda k: st0.read(V(("ref", "Market"), z3.Select(el, k)), "market_id").term
+    return [("C20 at most one order", z3.And(rn >= 0, rn <= 1)),
+            ("C20 every emitted order is under the agent's own id, for ONE market of the given list that the agent can access",
+             z3.Exists([j], z3.And(0 <= j, j < n, accessible(st0, ag, mkid(j)),
+                                   z3.ForAll([i], z3.Implies(z3.And(0 <= i, i < rn), z3.And(O(st1, "agent_id")[z3.Select(rel, i)] == st0.read(ag, "agent_id").term, O(st1, "market_id")[z3.Select(rel, i)] == mkid(j),
+                                                                                               O(st1, "kind")[z3.Select(rel, i)] == 1, O(st1, "volume")[z3.Select(rel, i)] == 1))))))]
+
+
+MS_SUBMIT = FSpec("MarketShareFCNAgent.submit_orders", pre=ms_pre, post=ms_post, props=("C20",), fresh_result=True, result=("list", ("ref", "Order")), modifies=lambda st, a: ORDER_MODS + ["len:Real", "el:Real", "g:draws"],
+                  raises={"AssertionError": lambda st, a: z3.Not(ms_some_accessible(st, a))})
+
+
+def ms_loops():
+    def inv(st, ctx):
+        i = ctx["i"]
+        w = st.env["weights"]
+        return [("one weight per accessible market so far", st.length(w.term, ("real",)) == i)]
+    return {0: LoopSpec(inv, modifies=lambda st, ctx: [("len:Real", [st.env["weights"].term]), ("el:Real", [st.env["weights"].term])], header="filter_markets", name="weights")}
+
+
+@task("MarketShareFCNAgent.submit_orders", props=["C20"], functions=["MarketShareFCNAgent.submit_orders"], replay="agents")
+def t_market_share():
+    """MarketShareFCNAgent: picks one accessible market of the list (any, with the generator's weighted choice) and returns that market's FCN order"""
+    specs = dict(ACCESSORS)
+    specs.update({("m", "Agent", "is_market_accessible"): IS_ACCESSIBLE.handler(), ("m", "MarketShareFCNAgent", "get_sum_trade_volume"): SUM_TRADE_VOLUME.handler(),
+                  ("m", "FCNAgent", "submit_orders_by_market"): FCN_BY_MARKET.handler()})
+    obl, info = MS_SUBMIT.verify(specs=specs, loops=ms_loops())
+    return {"obligations": obl, "info": [info]}
